@@ -296,7 +296,10 @@ def gen_history(rng, nclients, length, reopen=True, ticks=True, lib=True):
         a, b = rng.sample(range(1, nclients + 1), 2)
         steps += [{"op": "AddVersion", "c": b, "arg": {"sym": "nil"}}, {"op": "AddVersion", "c": b, "arg": {"sym": "latest", "of": b}},
                   {"op": "AddSnapshot", "c": b, "arg": {"sym": "latest", "of": b}},
-                  {"op": "AddVersion", "c": a, "arg": {"sym": "latest", "of": b}}, {"op": "AddSnapshot", "c": a, "arg": {"sym": "latest", "of": b}},
+                  {"op": "AddVersion", "c": a, "arg": {"sym": "latest", "of": b}},
+                  # a snapshot for a version of ANOTHER client that is neither in a's short history nor its root: declined, and b goes on unharmed
+                  {"op": "AddSnapshot", "c": a, "arg": {"sym": "first", "of": b}}, {"op": "GetSnapshot", "c": b}, {"op": "GetChildVersion", "c": b, "arg": {"sym": "nil"}},
+                  {"op": "AddSnapshot", "c": a, "arg": {"sym": "latest", "of": b}},
                   {"op": "GetSnapshot", "c": b}, {"op": "AddVersion", "c": b, "arg": {"sym": "latest", "of": b}},
                   {"op": "GetChildVersion", "c": b, "arg": {"sym": "anc", "of": b, "k": 1}}, {"op": "AddVersion", "c": a, "arg": {"sym": "latest", "of": a}},
                   {"op": "AddSnapshot", "c": a, "arg": {"sym": "latest", "of": a}}, {"op": "GetSnapshot", "c": b}, {"op": "GetSnapshot", "c": a}]
@@ -360,7 +363,7 @@ def history_jobs(rng, n, length, run0, backends=("inmemory", "sqlite"), drivers=
     return jobs
 
 
-def overlap_jobs(rng, n, run0, backends=("inmemory", "sqlite"), prefix="ov", rounds=14):
+def overlap_jobs(rng, n, run0, backends=("inmemory", "sqlite"), prefix="ov", rounds=14, many=False):
     """Uploads in flight at the same time over real sockets (one in-process HttpServer; 1 worker = every connection on the same
     thread, 2 workers = spread): the pieces of 2-3 chunked uploads are sent interleaved, other requests are served in between.
     The order of completion is the sequential history the judge explains the responses by."""
@@ -372,7 +375,8 @@ def overlap_jobs(rng, n, run0, backends=("inmemory", "sqlite"), prefix="ov", rou
                  {"op": "AddVersion", "c": 3, "arg": {"sym": "rnd", "k": 5}}]
         for r in range(rounds):
             ups = []
-            for _ in range(rng.choice([2, 2, 3])):
+            # many: now and then six uploads at once (a server that limits what it holds in memory must refuse like any other refusal)
+            for _ in range(rng.choice([2, 2, 3]) if not (many and r % 4 == 1) else 6):
                 c = rng.randint(1, ncl)
                 op = rng.choice(["AddVersion", "AddSnapshot", "AddSnapshot"])
                 arg = rng.choice([{"sym": "latest", "of": c}, {"sym": "latest", "of": c}, {"sym": "anc", "of": c, "k": 1}])
